@@ -19,6 +19,7 @@ MC_RandChoices == {1}
 MC_MsgA == <<104,105>>
 MC_MsgB == <<>>
 MC_Modes == <<"Disabled", "FirstCheater", "AllCheaters">>
+MC_MaxCheaters == 99
 MC_EMIT == TRUE
 
 ====
